@@ -309,6 +309,9 @@ pub struct Features {
     pub repartitions: usize,
     pub side_input: bool,
     pub empty_source: bool,
+    pub window_in_loop: bool,
+    pub agg_in_loop: bool,
+    pub join_in_loop: bool,
 }
 
 pub fn features(job: &JobSpec) -> Features {
@@ -323,10 +326,12 @@ pub fn features(job: &JobSpec) -> Features {
                     f.repartitions += 1
                 }
                 Stage::KeyedAgg { .. } | Stage::GlobalAgg { .. } => {
+                    f.agg_in_loop |= depth > 0;
                     f.has_agg = true;
                     f.repartitions += 1
                 }
                 Stage::CountWindow { .. } => {
+                    f.window_in_loop |= depth > 0;
                     f.has_window = true;
                     f.repartitions += 1
                 }
